@@ -201,6 +201,7 @@ def has_valid_tld(url):
     if not parsed.hostname:
         return False
 
-    last_part = parsed.hostname.rsplit(".", 1)[-1]
+    # NOTE: a hostname can be written with its root dot
+    last_part = parsed.hostname.rstrip(".").rsplit(".", 1)[-1]
 
     return is_valid_tld(last_part)
